@@ -33,6 +33,33 @@ type Case struct {
 	PermMode    int32      `json:"permissions_mode"`
 	SHA256      bool       `json:"sha256"`
 	Ignored     []string   `json:"ignored"` // paths the scripted ignorer reports as ignored
+	// Decisions, if non-nil, script the full ignorer contract instead: path ->
+	// "ignored", "ignored-continue" (directories: traversed under an ignore
+	// mask), "unignored", "nominal-continue" (directories under a mask that
+	// are still traversed). Unlisted paths are nominal.
+	Decisions map[string]string `json:"decisions,omitempty"`
+}
+
+// scriptedIgnorer implements the full contract from Case.Decisions.
+type scriptedIgnorer map[string]string
+
+func (s scriptedIgnorer) decide(path string, directory bool) (int, bool) {
+	switch s[path] {
+	case "ignored":
+		return 1, false
+	case "ignored-continue":
+		return 1, directory
+	case "unignored":
+		return 2, false
+	case "nominal-continue":
+		return 0, directory
+	}
+	return 0, false
+}
+
+func (s scriptedIgnorer) Ignore(path string, directory bool) (ignore.IgnoreStatus, bool) {
+	status, cont := s.decide(path, directory)
+	return []ignore.IgnoreStatus{ignore.IgnoreStatusNominal, ignore.IgnoreStatusIgnored, ignore.IgnoreStatusUnignored}[status], cont
 }
 
 // setIgnorer is a scripted ignorer: exactly the listed paths are ignored.
@@ -82,11 +109,16 @@ func judgeBuilt(c *Case, root string) (violation string, nontrivial bool) {
 		SymlinkMode: core.SymbolicLinkMode(c.SymlinkMode), PermMode: core.PermissionsMode(c.PermMode), SHA256: c.SHA256,
 		Ignored: func(p string, d bool) bool { return ign[p] },
 	}
+	var ignorer ignore.Ignorer = ign
+	if c.Decisions != nil {
+		si := scriptedIgnorer(c.Decisions)
+		ignorer, opts.Decide, opts.Ignored = si, si.decide, nil
+	}
 	var hasher hash.Hash = sha1.New()
 	if c.SHA256 {
 		hasher = sha256.New()
 	}
-	snap, cache, _, err := core.Scan(context.Background(), root, nil, nil, hasher, nil, ign, nil,
+	snap, cache, _, err := core.Scan(context.Background(), root, nil, nil, hasher, nil, ignorer, nil,
 		behavior.ProbeMode_ProbeModeProbe, opts.SymlinkMode, opts.PermMode)
 	if err != nil {
 		return fmt.Sprintf("scan of a quiescent tree fails: %v", err), false
@@ -159,7 +191,7 @@ func TestRandomTrees(t *testing.T) {
 	if ev.ReplayPath() != "" {
 		t.Skip()
 	}
-	rec := ev.New(t, prop, "random-trees", "rapid: directory trees (depth<=3, fan-out<=6) with files of 0..200kB and random modes, portable/non-portable links, FIFOs, non-UTF-8 and temporary-prefixed names, file roots and missing roots x symlink mode x permissions mode x sha1/sha256 x scripted ignored set; snapshot, counters and digest cache compared with an independent lstat/readlink/sha walk; non-trivial: >= 3 distinct entry kinds incl. one unsynchronizable")
+	rec := ev.New(t, prop, "random-trees", "rapid: directory trees (depth<=3, fan-out<=6) with files of 0..200kB and random modes, portable/non-portable links, FIFOs, non-UTF-8 and temporary-prefixed names, file roots and missing roots x symlink mode x permissions mode x sha1/sha256 x scripted ignorer (a set of ignored paths, or per-path decisions under the full contract: ignored / ignored but traversed under a mask / unignored / nominal but traversed); snapshot, counters and digest cache compared with an independent lstat/readlink/sha walk; non-trivial: >= 3 distinct entry kinds incl. one unsynchronizable")
 	g := disk.Gen{MaxDepth: 3, MaxFan: 6, Exotic: true, BigFiles: true, Links: true}
 	base := t.TempDir()
 	i := 0
@@ -179,9 +211,30 @@ func TestRandomTrees(t *testing.T) {
 		var paths []string
 		allPaths(c.Root, "", &paths)
 		sort.Strings(paths)
-		for _, p := range paths {
-			if rapid.IntRange(0, 7).Draw(rt, "ignore?") == 0 && !strings.Contains(p, "\xff") {
-				c.Ignored = append(c.Ignored, p)
+		if rapid.IntRange(0, 2).Draw(rt, "full-ignorer-contract") == 0 {
+			// Docker-style decisions: masks, traversal of ignored directories
+			// and unignored content below them.
+			c.Decisions = map[string]string{}
+			for _, p := range paths {
+				if strings.Contains(p, "\xff") {
+					continue
+				}
+				switch rapid.IntRange(0, 11).Draw(rt, "decision") {
+				case 0:
+					c.Decisions[p] = "ignored"
+				case 1, 2, 3:
+					c.Decisions[p] = "ignored-continue"
+				case 4, 5:
+					c.Decisions[p] = "unignored"
+				case 6, 7:
+					c.Decisions[p] = "nominal-continue"
+				}
+			}
+		} else {
+			for _, p := range paths {
+				if rapid.IntRange(0, 7).Draw(rt, "ignore?") == 0 && !strings.Contains(p, "\xff") {
+					c.Ignored = append(c.Ignored, p)
+				}
 			}
 		}
 		i++
@@ -197,6 +250,9 @@ func TestRandomTrees(t *testing.T) {
 		if len(c.Ignored) > 0 {
 			rec.Class("with-ignored")
 		}
+		if c.Decisions != nil {
+			rec.Class("full-ignorer-contract")
+		}
 		if c.Root == nil {
 			rec.Class("missing-root")
 		} else if c.Root.Kind == disk.File {
@@ -204,9 +260,9 @@ func TestRandomTrees(t *testing.T) {
 		}
 		if nt {
 			rec.Class("nontrivial")
-			rec.NonTrivial(ev.Hash(c.Root.Render(false), fmt.Sprint(c.SymlinkMode, c.PermMode, c.SHA256, c.Ignored)))
+			rec.NonTrivial(ev.Hash(c.Root.Render(false), fmt.Sprint(c.SymlinkMode, c.PermMode, c.SHA256, c.Ignored, c.Decisions)))
 			if rec.WantSample() {
-				rec.Sample(map[string]any{"tree": c.Root.Render(false), "symlink_mode": c.SymlinkMode, "permissions_mode": c.PermMode, "sha256": c.SHA256, "ignored": c.Ignored})
+				rec.Sample(map[string]any{"tree": c.Root.Render(false), "symlink_mode": c.SymlinkMode, "permissions_mode": c.PermMode, "sha256": c.SHA256, "ignored": c.Ignored, "decisions": c.Decisions})
 			}
 		}
 	})
